@@ -418,10 +418,26 @@ func mix(c *mon.Case, sp spec) {
 	if !c.AwaitOrViolate("deadlock:mixer/"+sp.Proto, fmt.Sprintf("%d goroutines x %d API calls (all with deadlines <= 6ms) finishing", sp.G, sp.Ops), done.Done, mon.AwaitOpts{MaxTimer: 10 * time.Millisecond, Ignore: []string{"internal/core.(*dialer)", "internal/core.(*listener).serve"}}) {
 		return
 	}
-	// finally Close from two goroutines
+	// finally Close from two goroutines, while other goroutines close contexts of the same socket
+	var extra []mangos.Context
+	for i := 0; i < 6; i++ {
+		if cx, err := s.OpenContext(); err == nil {
+			extra = append(extra, cx)
+		}
+	}
 	c1 := mon.Go("Close", func() (interface{}, error) { return nil, s.Close() })
+	cc := mon.Go("ctx-closers", func() (interface{}, error) {
+		var cw sync.WaitGroup
+		for _, cx := range extra {
+			cx := cx
+			cw.Add(1)
+			go func() { defer cw.Done(); cx.Close() }()
+		}
+		cw.Wait()
+		return nil, nil
+	})
 	c2 := mon.Go("Close", func() (interface{}, error) { return nil, s.Close() })
-	if !c.AwaitOrViolate("deadlock:close/"+sp.Proto, "two concurrent Close calls returning", func() bool { return c1.Done() && c2.Done() }, mon.AwaitOpts{MaxTimer: 10 * time.Millisecond}) {
+	if !c.AwaitOrViolate("deadlock:close/"+sp.Proto, "two concurrent Close calls (and concurrent context closes) returning", func() bool { return c1.Done() && c2.Done() && cc.Done() }, mon.AwaitOpts{MaxTimer: 10 * time.Millisecond}) {
 		return
 	}
 	_, e1, _ := c1.Result()
